@@ -101,13 +101,18 @@ fn apply_single_patch(file_path: &Path, patch_content: &str) -> Result<()> {
     #[cfg(not(windows))]
     let result_to_write = result;
 
-    // Write the result back to the file
-    fs::write(file_path, &result_to_write)
+    // Write the result to a temp file in the same directory and rename it over the file, as
+    // apply does: a crash in the middle must not leave the user's file truncated
+    let temp_path = file_path.with_extension(format!("{}.renamify.tmp", std::process::id()));
+    fs::write(&temp_path, &result_to_write)
         .with_context(|| format!("Failed to write file: {}", file_path.display()))?;
 
     // Restore original permissions
-    fs::set_permissions(file_path, original_permissions)
+    fs::set_permissions(&temp_path, original_permissions)
         .with_context(|| format!("Failed to restore permissions for: {}", file_path.display()))?;
+
+    fs::rename(&temp_path, file_path)
+        .with_context(|| format!("Failed to write file: {}", file_path.display()))?;
 
     Ok(())
 }
